@@ -211,6 +211,32 @@ Theorem C07_f32_pattern_fits : forall x, bits_of_f32 x < 4294967296.
 Proof. exact bits_of_f32_lt. Qed.
 Print Assumptions C07_f32_pattern_fits.
 
+(* a value denoted by an f32 pattern (every stored value is one) survives the narrowing `as f32`
+   (IEEE mode: representable, nothing is rounded; exact mode: no rounding at all) and being stored as
+   a pattern and decoded again: f32_of_bits o bits_of_f32 is the identity on the image of f32_of_bits *)
+Theorem C07_f32_store_load : forall b, b < 4294967296 ->
+  f32_of_bits (bits_of_f32 (f32_of_bits b)) = f32_of_bits b
+  /\ to_f32 ieee (f32_of_bits b) = f32_of_bits b /\ to_f32 exact (f32_of_bits b) = f32_of_bits b.
+Proof. exact f32_store_load. Qed.
+Print Assumptions C07_f32_store_load.
+
+(* IEEE mode, any finite statistic x = M * 2^E (sum, sum of squares): what the reader returns for it,
+   [stat_read ieee x] = f32_of_bits (bits_of_f32 (to_f32 ieee x)), denotes EXACTLY the binary32 rounding
+   [to_f32 ieee x] of x (round to nearest, ties to even, gradual underflow: Base/Float.v round_dy 24 (-149) 128);
+   an overflow is read back as that infinity.  Only the representation may change (the decoder returns
+   the normalised significand): values are compared as integers after scaling by 2^149. *)
+Theorem C07_stat_read_value_ieee : forall M E,
+  match to_f32 ieee (FFin M E) with
+  | FFin m e =>
+      exists m' e', f32_of_bits (bits_of_f32 (to_f32 ieee (FFin M E))) = FFin m' e'
+        /\ (m = 0 -> m' = 0)%Z
+        /\ (m <> 0 -> -149 <= e /\ -149 <= e' /\ m' * 2 ^ (e' + 149) = m * 2 ^ (e + 149))%Z
+  | FInf s => f32_of_bits (bits_of_f32 (to_f32 ieee (FFin M E))) = FInf s
+  | FNaN => False
+  end.
+Proof. exact f32_read_value_ieee. Qed.
+Print Assumptions C07_stat_read_value_ieee.
+
 (* zoom record codec: parse_zrecs (get_zoom_block_values' decoding loop) on the bytes
    encode_zoom_section writes returns [zrec_read fp z] for each record z: chromosome, start, end and
    covered bases as written, item count 0 (not stored in the file), and every statistic x as
@@ -288,6 +314,20 @@ Theorem C07_file_zoom_query_two_pass : forall fp o sizes inp bs,
            = Ok (map (zrec_read fp) (filter (ztouch s e) (concat (zs_out st)))).
 Proof. exact file_zoom_query_two_pass. Qed.
 Print Assumptions C07_file_zoom_query_two_pass.
+
+(* minimum and maximum are read back EXACTLY: for IEEE and for exact arithmetic, with stored values
+   that are f32 patterns (input_ok), the min / max of every record of a chromosome are the values of
+   stored values of that chromosome (v, w), and [zrec_read] leaves them unchanged.  (Sum and sum of
+   squares come back as [stat_read fp x]: in IEEE mode the f32 rounding of the f64 accumulator.) *)
+Theorem C07_minmax_read_exact : forall fp ips size chrom len vals st, fp = ieee \/ fp = exact ->
+  1 <= size -> wf_vals len vals -> Forall (fun v => v_bits v < U32) vals ->
+  zoom_chrom fp ips size chrom vals zstate0 = Ok st ->
+  Forall (fun r => su_min (z_sum (zrec_read fp r)) = su_min (z_sum r)
+                   /\ su_max (z_sum (zrec_read fp r)) = su_max (z_sum r)
+                   /\ exists v w, In v vals /\ In w vals /\ su_min (z_sum r) = v_val v /\ su_max (z_sum r) = v_val w)
+         (concat (zs_out st)).
+Proof. exact zoom_minmax_read. Qed.
+Print Assumptions C07_minmax_read_exact.
 
 (* what that answer contains: every record of the chromosome that intersects [s, e) is returned;
    every returned record is the narrowing of a record of that chromosome touching the range; order,
